@@ -219,12 +219,29 @@ def check_alg(cfg, shard, res, tables):
     res.count('algebras')
 
 
+def make_from_buffer(cfg):
+    """The signature is handed over as an ndarray which the caller overwrites afterwards (e.g. enumerating signatures in
+    one buffer): the algebra must not keep a view of it."""
+    import numpy as np
+    from kingdon import Algebra
+    ref = ref_from_config(cfg)
+    buf = np.array(ref.metric)
+    kw = {}
+    if cfg.get('start_index') is not None:
+        kw['start_index'] = cfg['start_index']
+    alg = Algebra(signature=buf, **kw)
+    buf[:] = [{1: -1, -1: 0, 0: 1}[int(v)] for v in buf]
+    return alg
+
+
 def check_lazy(cfg, shard, res, tables):
     """d >= 7: the sign table is filled on demand; explore a structured pair set completely, in two fill orders."""
     ref = ref_from_config(cfg)
     name = cfg_name(cfg)
     case = {'shard': {**shard, 'cfgs': [cfg]}}
-    a1, a2 = make_algebra(cfg), make_algebra(cfg)
+    a1 = make_algebra(cfg)
+    # the second object is built from a caller-owned ndarray that is overwritten after construction
+    a2 = make_from_buffer(cfg) if (not cfg.get('basis') and (cfg.get('signature') is not None or cfg.get('r', 0) != 1 or True)) and _default_start(cfg) else make_algebra(cfg)
     d = a1.d
     if shard.get('full'):
         keys = list(range(2 ** d))
@@ -276,6 +293,15 @@ def check_lazy(cfg, shard, res, tables):
     res.count('algebras')
     res.count('lazy_algebras')
     res.sample({'config': name, 'lazy_pairs': len(pairs), 'fill_orders': 2})
+
+
+def _default_start(cfg):
+    """make_from_buffer passes an explicit signature; that is the same algebra only if the start index is given or default."""
+    if cfg.get('start_index') is not None:
+        return True
+    ref = ref_from_config(cfg)
+    r = sum(1 for m in ref.metric if m == 0)
+    return ref.start == (0 if r == 1 else 1)
 
 
 def run_shard(shard):
